@@ -9,7 +9,7 @@
 extern "C" int LLVMFuzzerTestOneInput(const uint8_t* data, size_t size) {
     if (size < 4) return 0;
     dsim::Config c;
-    c.P = 1 + data[0] % 6; c.J = data[1] % 9; c.R = 1 + data[2] % 3; c.mode = (data[3] & 1) && c.P >= 2 ? 1 : 0;
+    c.P = 1 + data[0] % 6; c.J = data[1] % 9; c.R = 1 + data[2] % 3; c.mode = (data[3] & 1) && c.P >= 2 ? 1 + (data[0] / 6) % c.P : 0;   // dedicated master on any rank
     size_t pos = 4;
     c.order.resize(c.J);
     for (int j = 0; j < c.J; j++) c.order[j] = j;
